@@ -239,8 +239,7 @@ Section XmlProofs.
           pose proof (read_leaf_safe_xml a k s) as H; destruct (read_leaf a g k s); auto end
       | intros v _; destruct (soft && negb _); conc ]).
     - (* LText *)
-      destruct (soft && negb (vstring LText nillable txt)); [conc|].
-      cbv zeta. destruct (soft && negb _); conc.
+      cbv zeta. dif; [conc|]. dif; conc.
     - (* LEnum *)
       destruct (soft && negb (vstring (LEnum vals) nillable txt)); [conc|].
       destruct (negb _); destruct txt; conc.
@@ -279,6 +278,12 @@ Section XmlProofs.
   Lemma freq_check_safe fs seen : safe (freq_check fs seen).
   Proof. induction fs as [|f r IH]; simpl; [conc|]. destruct (occurs_ok _ _ _); [exact IH|conc]. Qed.
 
+  Lemma xsi_target_safe t' t : safe (xsi_target t' t).
+  Proof.
+    unfold xsi_target. destruct t', t; try conc;
+      match goal with |- safe (if ?c then _ else _) => destruct c end; conc.
+  Qed.
+
   Lemma resolve_class_safe t nillable n :
     ty_wf_top N t = true ->
     safe (resolve_class soft A t nillable n) /\
@@ -294,9 +299,10 @@ Section XmlProofs.
       destruct (nsmap_get p (node_nsmap n)) as [ns|].
       2:{ split; [conc|]. intros t' nil'. vm_compute. discriminate. }
       destruct (assoc (qname ns objtype) (a_registry A)) as [[[t0 nil0]|]|] eqn:E.
-      + destruct (ty_sub t0 t).
-        * split; [conc|]. intros t' nil' H. inversion H; subst. eapply wf_registry; eauto.
-        * split; [conc|]. intros t' nil'. vm_compute. discriminate.
+      + pose proof (xsi_target_safe t0 t) as Hx.
+        destruct (xsi_target t0 t) as [[]|e c].
+        * split; [conc|]. intros t' nil' H. inversion H; subst. exact Wt.
+        * split; [exact Hx|]. intros t' nil'. discriminate.
       + split; [conc|]. intros t' nil'. vm_compute. discriminate.
       + split; [conc|]. intros t' nil'. vm_compute. discriminate.
   Qed.
@@ -362,7 +368,7 @@ Section XmlTotal.
   Proof.
     induction n using xnode_ind'; intros t0 nillable Wt.
     - (* content-only node: no children *)
-      cbn [from_element]. destruct (resolve_class_safe soft A WF t0 nillable (XO k t) Wt) as [Hs Hw].
+      cbn [from_element]. destruct (resolve_class_safe soft A t0 nillable (XO k t) Wt) as [Hs Hw].
       apply safe_bind; [exact Hs|].
       intros [[t' nil']|] E; [|conc].
       specialize (Hw _ _ E).
@@ -375,7 +381,7 @@ Section XmlTotal.
         destruct soft; [apply freq_check_safe|conc].
       + apply attr_elem_safe.
       + conc.
-    - cbn [from_element]. destruct (resolve_class_safe soft A WF t0 nillable (XE tag nsmap attrs txt kids) Wt) as [Hs Hw].
+    - cbn [from_element]. destruct (resolve_class_safe soft A t0 nillable (XE tag nsmap attrs txt kids) Wt) as [Hs Hw].
       apply safe_bind; [exact Hs|].
       intros [[t' nil']|] E; [|conc].
       specialize (Hw _ _ E).
